@@ -297,7 +297,7 @@ def h_ops__reach(kind: int, o0: int, a0: int, o1: int, a1: int, o2: int, a2: int
     assert not (ops[1][0] == 9 and e1 is None)  # twin: a nested edit of an existing mapping is reachable
 
 
-def _lifecycle_case(ev, w, plan):
+def _lifecycle_case(ev, w, plan, sib=0):
     """document handle obtained, then remove() or a re-key, then a write through a NEW handle request: no directory of the old id reappears;
     the document file is exactly signac_job_document.json under the CURRENT id"""
     reset_buffers()
@@ -325,13 +325,16 @@ def _lifecycle_case(ev, w, plan):
             ctx = signac.buffered()
             ctx.__enter__()
         job.document["x"] = 1
+        writer = copy.copy(job) if sib else job     # sib: a shallow copy taken AFTER the document was first used shares the document object
         if ev == 0:
             job.remove()
             want_doc, cur = {"y": w}, {"a": 0}
         else:
             job.statepoint["a"] = 1
             want_doc, cur = {"x": 1, "y": w}, {"a": 1}
-        job.document["y"] = w
+        if sib and ev == 0:
+            writer.init()      # the job is re-created through the surviving copy before its document is used again
+        writer.document["y"] = w
         if ctx:
             ctx.__exit__(None, None, None)
         cur_id = refs.canon_id(cur)
@@ -352,13 +355,13 @@ def _lifecycle_case(ev, w, plan):
     return (not problems), problems
 
 
-def h_lifecycle(ev: int, w: int, plan: int):
-    assert 0 <= ev <= 2 and 0 <= w <= 1 and 0 <= plan <= 1
+def h_lifecycle(ev: int, w: int, plan: int, sib: bool):
+    assert 0 <= ev <= 2 and 0 <= w <= 1 and 0 <= plan <= 1 and (ev != 2 or not sib)
     assert not (ev >= 1 and plan == 1)  # a state point change inside a buffered block is not a document operation (outside the claim; see DESIGN §6)
     fresh_path()
-    ev, w, plan = ci(ev, 0, 2), ci(w, 0, 1), ci(plan, 0, 1)
+    ev, w, plan, sib = ci(ev, 0, 2), ci(w, 0, 1), ci(plan, 0, 1), cb(sib)
     with nt():
-        r = _lifecycle_case(ev, w, plan)
+        r = _lifecycle_case(ev, w, plan, sib)
     reached()
     assert r[0]
 
